@@ -13,6 +13,9 @@ import (
 func (fgen *funcGen) irValue(typ types.Type, old ast.Value) (value.Value, error) {
 	switch old := old.(type) {
 	case *ast.GlobalIdent:
+		if err := checkIdentRef(old.Text()); err != nil {
+			return nil, err
+		}
 		ident := globalIdent(*old)
 		v, ok := fgen.gen.new.globals[ident]
 		if !ok {
@@ -20,6 +23,9 @@ func (fgen *funcGen) irValue(typ types.Type, old ast.Value) (value.Value, error)
 		}
 		return v, nil
 	case *ast.LocalIdent:
+		if err := checkIdentRef(old.Text()); err != nil {
+			return nil, err
+		}
 		ident := localIdent(*old)
 		v, ok := fgen.locals[ident]
 		if !ok {
